@@ -17,7 +17,7 @@ static inline bool packet_ok_to_drop_spec(int type) { return type != PKT_syn_ack
 
 /* representation invariant of high_resolution_timer (proved by every function of the timer unit) */
 #define INV_hrtimer(t) (BOOL_OK((t)->m_expired) && BOOL_OK((t)->g_in_queue) && ((t)->m_handler == 0 || !(t)->m_expired) && (t)->g_in_queue == !(t)->m_expired && \
-                        (t)->m_handler >= 0 && (t)->m_expiration_time >= -TE_MAX && (t)->m_expiration_time <= TE_MAX)
+                        (!(t)->g_in_queue || (t)->g_queued_exp == (t)->m_expiration_time) && (t)->m_handler >= 0 && (t)->m_expiration_time >= -TE_MAX && (t)->m_expiration_time <= TE_MAX)
 /* "expired" must mean "the expiry has passed": otherwise a later wait completes successfully before its expiry */
 #define EXPIRED_MEANS_PAST(t) (!(t)->m_expired || (t)->m_expiration_time <= g_now)
 #endif
